@@ -24,6 +24,7 @@ def handle (j : Json) : Except String Json := do
   | "cursor" => Driver.cursor j
   | "rankids" => Driver.rankids j
   | "rankheap" => Driver.rankheap j
+  | "taint_check" => Driver.taintCheck j
   | "activity_balance" => Driver.activityBalance j
   | "reorder_check" => Driver.reorderCheck j
   | "tmp_issued" => Driver.tmpIssued j
